@@ -96,12 +96,17 @@ func (o *vectorOperator) initOutputs(ctx context.Context) error {
 	var highCardSide []labels.Labels
 	var errChan = make(chan error, 1)
 	go func() {
+		defer close(errChan)
+		defer func() {
+			if r := recover(); r != nil {
+				errChan <- errors.Newf("unexpected error: %v", r)
+			}
+		}()
 		var err error
 		highCardSide, err = o.lhs.Series(ctx)
 		if err != nil {
 			errChan <- err
 		}
-		close(errChan)
 	}()
 
 	lowCardSide, err := o.rhs.Series(ctx)
